@@ -35,9 +35,14 @@ CHECKS.update({
     "C05": dict(
         text="Part (a) precedence/associativity: expression skeletons with symbolic operator slots are parsed by the real parser (MIR); for "
              "every operator assignment the solver admits on a path (all 19x19 pairs, unary x binary, with call/index/paren/cast operands) "
-             "the parser's nesting is compared with a reference precedence-climbing parser over the OpenQASM 3 table. Part (b) (typed accessor "
-             "roles) is not claimed (needs the AST boundary).",
-        note="Trusted: operator table in /verif/spec/grammar.py; MIR dump, stubs, z3. Bounds: <= 3 operators (quick) / 4 (thorough) per expression.",
+             "the parser's nesting is compared with a reference precedence-climbing parser over the OpenQASM 3 table. Part (b): the hand-written "
+             "typed accessors of oq3_syntax::ast (if condition / then / else in all block / single-statement combinations, while and for bodies, "
+             "range start / step / stop, binary lhs / rhs / operator for every spelling, prefix operator, indexed-identifier name, assignment "
+             "target / value, gate-call and call names, gate angle vs qubit parameters) are executed from MIR on the tree the real parser built "
+             "and the node each returns is compared by text span with the constituent in that role; constituent atoms are solver choices.",
+        note="Trusted: operator table in /verif/spec/grammar.py; rowan tree model (part b); MIR dump, stubs, z3. Bounds: <= 3 operators (quick) / 4 "
+             "(thorough) per expression; 19 role programs x 5 atom kinds per constituent, 23 operator spellings. Part (b) violations are not re-run "
+             "natively (the accessors' only observable is the node they return; C06 observes the same roles through the analyser).",
         technique=MC, design="6/C05"),
     "C10": dict(
         text="The literal accessors are executed from MIR on symbolic token texts: for every well-formed integer lexeme (4 radices, both prefix "
@@ -67,7 +72,9 @@ CHECKS.update({
         text="One advance_token from an arbitrary string of n symbolic code points (the inductive step: the cursor carries no other state, "
              "which is asserted) and LexedStr::new on whole strings, executed from MIR. Proved on every path: at least one char consumed, "
              "token length = exact byte length of the consumed chars (so non-zero and on a char boundary), suffix_start <= len, table offsets "
-             "strictly increasing char boundaries ending at |S|; no hidden state is read (MIR scan).",
+             "strictly increasing char boundaries ending at |S|; no hidden state is read (MIR scan). Prefix-anchored whole strings (`//`, `/*`, "
+             "`@a`, `pragma `, `#pragma `, `\"0`, `0x`, `1e`, `OPENQASM 3`, ... followed by 1 / 2 symbolic characters) reach the code that only runs "
+             "deep inside a multi-character token (LexedStr::inner_extend_token's per-kind lengths).",
         note="Trusted: MIR dump, string model (byte lengths are exact linear forms over len_utf8), Unicode tables from the locked crates, std's "
              "Chars decoding, z3. Bounds: n <= 4 (quick) / 6 (thorough) chars per token step, whole strings <= 2 / 3 chars; every Unicode scalar value per position.",
         technique=MC, design="6/C14"),
@@ -76,7 +83,9 @@ CHECKS.update({
              "provably no ERROR token, proved on every path of the real to_input/parse/intersperse_trivia code with symbolic raw token kinds; "
              "(c) for `\"<n symbolic code points>\" ;` (STRING and BIT_STRING, every Unicode scalar value) oq3_syntax::validation with the real "
              "oq3_lexer::unescape runs from MIR and every diagnostic's range is proved to satisfy start <= end <= length with both ends on "
-             "character boundaries (exact byte-length terms); (d) SemanticError::range is structurally node.text_range() in the MIR.",
+             "character boundaries (exact byte-length terms), also for unterminated literals (no panic); parser diagnostics: StrStep::Error goes "
+             "through the REAL SyntaxTreeBuilder::error (MIR) for 11 erroneous shapes with a symbolic code point around the error position and "
+             "the resulting SyntaxError ranges get the same obligations; (d) SemanticError::range is structurally node.text_range() in the MIR.",
         note="Trusted: rowan text ranges, MIR dump, stubs, z3. Raw-token starts are char boundaries by C14. Bounds: <= 2 / 3 raw tokens full "
              "alphabet, <= 3 / 4 over the error-recovery sub-alphabet; escape literals of <= 3 / 4 code points.",
         technique=MC, design="6/C12"),
@@ -126,8 +135,11 @@ CHECKS.update({
     "C16": dict(
         text="Three runs of the real parser (MIR) on shared symbolic tokens: T[..k], T[k..] and T (also T inside gate/def/if/while/for/case "
              "block bodies). Whenever both parts parse without an Error event, the whole is proved to parse without Error and its statement "
-             "list to be the concatenation (node kinds proved equal by the solver).",
-        note="Trusted: MIR dump, stubs, z3. Bounds: <= 3 (quick) / 4 (thorough) tokens, every split point, full alphabet, joint bits symbolic.",
+             "list to be the concatenation (node kinds proved equal by the solver). Second part, whole statements: for every ordered pair of "
+             "statement skeletons (token classes of the first, operator spellings and joint bits of both symbolic) S1, S2 and S1 S2 are parsed "
+             "and compared the same way, which reaches boundaries the windows cannot (`{ x; } (a);`, `x = y; -x;`).",
+        note="Trusted: MIR dump, stubs, z3. Bounds: windows of <= 3 (quick) / 4 (thorough) tokens, every split point, full alphabet, joint bits "
+             "symbolic; 4096 (quick) / 38809 ordered skeleton pairs of <= 14 tokens each.",
         technique=MC, design="6/C16"),
 })
 
